@@ -335,6 +335,11 @@ func (ex *Exec) callContract(fr *Frame, c *Contract, callee *ssa.Function, args,
 	pre := st.clone()
 	env.old = pre
 	ms := ex.resolveModifies(env, c)
+	ex.havocLog = nil
+	pcBefore := len(st.PC)
+	// allocation ghosts may be changed by any call (constrained only by explicit ensures)
+	ms.Ghost["maxalloc"] = true
+	ms.Ghost["nalloc"] = true
 	ex.applyHavoc(st, ms)
 	ex.bumpAlloc(st)
 	ex.resolveMemNew(env, ms)
@@ -344,6 +349,7 @@ func (ex *Exec) callContract(fr *Frame, c *Contract, callee *ssa.Function, args,
 	for _, e := range c.Ensures {
 		st.assume(env.boolTerm(e.Expr))
 	}
+	ex.propagateHavocEqs(st, pcBefore)
 	ex.applyGhostSets(env, c, st)
 	k(st, res)
 }
@@ -377,6 +383,9 @@ func (ex *Exec) applyGhostSets(env *Env, c *Contract, st *State) {
 		}
 		us = append(us, upd{g, v})
 	}
+	for i := range us {
+		us[i].val = ex.nameTerm(st, us[i].val)
+	}
 	for _, u := range us {
 		switch u.g.LHS.Kind {
 		case "ghost":
@@ -395,9 +404,28 @@ func (ex *Exec) applyGhostSets(env *Env, c *Contract, st *State) {
 
 func (ex *Exec) resolveModifies(env *Env, c *Contract) *ModSet {
 	ms := &ModSet{Heap: map[string][]*Term{}, Ghost: map[string]bool{}, Maps: map[string][]*Term{}}
+	ex.resolveModList(env, c.Modifies, ms)
+	return ms
+}
+
+func (ex *Exec) resolveModList(env *Env, list []*SExpr, ms *ModSet) {
 	pre := *env
 	pre.cur = env.old
-	for _, m := range c.Modifies {
+	for _, m := range list {
+		if m.Kind == "call" {
+			if mg, ok := ex.specs.ModGroups[m.Name]; ok {
+				if len(mg.Params) != len(m.Args) {
+					sfail("modgroup %s expects %d arguments", m.Name, len(mg.Params))
+				}
+				vars := map[string]Value{}
+				for i, p := range mg.Params {
+					vars[p] = pre.eval(m.Args[i])
+				}
+				sub := env.with(vars)
+				ex.resolveModList(sub, mg.Targets, ms)
+				continue
+			}
+		}
 		switch m.Kind {
 		case "ident":
 			if m.Name == "everything" {
@@ -454,7 +482,6 @@ func (ex *Exec) resolveModifies(env *Env, c *Contract) *ModSet {
 			sfail("bad modifies target %s", m)
 		}
 	}
-	return ms
 }
 
 // resolveMemNew evaluates memnew(s) targets in the current (post-header-havoc) state.
@@ -503,6 +530,12 @@ func (ex *Exec) modField(ms *ModSet, env *Env, base Value, name string) {
 	}
 }
 
+type havocRec struct {
+	heap  string // heap array name ("" for global ghost)
+	ghost string
+	v     *Term // the fresh variable
+}
+
 func (ex *Exec) applyHavoc(st *State, ms *ModSet) {
 	if ms.All {
 		ex.havocAll(st)
@@ -518,12 +551,16 @@ func (ex *Exec) applyHavoc(st *State, ms *ModSet) {
 			} else {
 				sortS = ex.leafSortByName(n)
 			}
-			st.Heap[n] = Store(st.heapArr(n, sortS), obj, ex.freshVar("hv."+n, sortS))
+			fv := ex.freshVar("hv."+n, sortS)
+			ex.havocLog = append(ex.havocLog, havocRec{heap: n, v: fv})
+			st.Heap[n] = Store(st.heapArr(n, sortS), obj, fv)
 			st.Dirty["H:"+n] = true
 		}
 	}
 	for n := range ms.Ghost {
-		st.Ghost[n] = ex.freshVar("hv."+n, ex.specs.ghostSort(n))
+		fv := ex.freshVar("hv."+n, ex.specs.ghostSort(n))
+		ex.havocLog = append(ex.havocLog, havocRec{ghost: n, v: fv})
+		st.Ghost[n] = fv
 		st.Dirty["G:"+n] = true
 	}
 	for _, r := range ms.Mem {
@@ -621,4 +658,77 @@ func (ex *Exec) doDeferred(fr *Frame, d *deferRec, st *State, k func(*State)) {
 	}
 	args := append([]Value{d.fnval}, d.args...)
 	ex.callByKey(fr, key, nil, args, nil, resT, d.pos, nil, st, cont)
+}
+
+// propagateHavocEqs: when a postcondition pins a havocked location to a term
+// (hv == t at top level), store t instead of the fresh variable. Purely an
+// optimisation keeping ghost/heap state concrete along straight-line builders.
+func (ex *Exec) propagateHavocEqs(st *State, from int) {
+	if len(ex.havocLog) == 0 {
+		return
+	}
+	fresh := map[string]bool{}
+	for _, h := range ex.havocLog {
+		fresh[h.v.Name] = true
+	}
+	sub := map[string]*Term{}
+	var scan func(t *Term)
+	scan = func(t *Term) {
+		switch t.Op {
+		case "and":
+			for _, a := range t.Args {
+				scan(a)
+			}
+		case "=":
+			l, r := t.Args[0], t.Args[1]
+			if l.Op == "var" && fresh[l.Name] && !mentions(r, fresh) {
+				if _, dup := sub[l.Name]; !dup {
+					sub[l.Name] = r
+				}
+			} else if r.Op == "var" && fresh[r.Name] && !mentions(l, fresh) {
+				if _, dup := sub[r.Name]; !dup {
+					sub[r.Name] = l
+				}
+			}
+		case "var":
+			if t.Sort == SBool && fresh[t.Name] {
+				sub[t.Name] = tTrue
+			}
+		case "not":
+			if t.Args[0].Op == "var" && fresh[t.Args[0].Name] {
+				sub[t.Args[0].Name] = tFalse
+			}
+		}
+	}
+	for _, t := range st.PC[from:] {
+		scan(t)
+	}
+	if len(sub) == 0 {
+		return
+	}
+	for _, h := range ex.havocLog {
+		if _, ok := sub[h.v.Name]; !ok {
+			continue
+		}
+		if h.heap != "" {
+			st.Heap[h.heap] = Subst(st.Heap[h.heap], sub)
+		} else {
+			st.Ghost[h.ghost] = Subst(st.Ghost[h.ghost], sub)
+		}
+	}
+	for i := from; i < len(st.PC); i++ {
+		st.PC[i] = Subst(st.PC[i], sub)
+	}
+}
+
+func mentions(t *Term, names map[string]bool) bool {
+	if t.Op == "var" {
+		return names[t.Name]
+	}
+	for _, a := range t.Args {
+		if mentions(a, names) {
+			return true
+		}
+	}
+	return false
 }
